@@ -10,6 +10,8 @@
 //! outside "an archive it wrote".
 //!
 //! Mutants caught (tools/mutant_run.sh H <diff> C22 quick):
+//!   /verif/mutants/C22-flat-ingredient-store-ignores-c2pa-manifest.diff (independently seeded, first MISSED; led to the nested
+//!       signed chains) -> `archive-error step=sign-restored kind=InvalidManifest ... nest=[1,1*]`
 //!   /verif/mutants/C22-into-builder-loses-json-kind.diff -> `content-differs field=assertions at=[]/kind ...`
 
 use c2pa::{Builder, BuilderIntent, DigitalSourceType, Reader};
@@ -27,10 +29,13 @@ pub struct Case {
     pub ing_variant: u8,
     pub chain: usize,
     pub asset: String,
+    /// non-empty: an extra ingredient that is a nested signed chain; nest[0] is the claim version of the innermost signed asset,
+    /// each further level re-signs the previous asset (which becomes its parentOf ingredient) with that claim version
+    pub nest: Vec<u8>,
 }
 impl Case {
     pub fn to_json(&self) -> Value {
-        json!({"def": self.def.to_json(), "ver": self.ver, "icon": self.icon, "ing_variant": self.ing_variant, "chain": self.chain, "asset": self.asset})
+        json!({"def": self.def.to_json(), "ver": self.ver, "icon": self.icon, "ing_variant": self.ing_variant, "chain": self.chain, "asset": self.asset, "nest": self.nest})
     }
     pub fn from_json(v: &Value) -> Case {
         Case {
@@ -40,10 +45,12 @@ impl Case {
             ing_variant: v["ing_variant"].as_u64().unwrap_or(0) as u8,
             chain: v["chain"].as_u64().unwrap_or(1) as usize,
             asset: v["asset"].as_str().unwrap_or("jpeg").to_string(),
+            nest: v["nest"].as_array().map(|a| a.iter().map(|x| x.as_u64().unwrap_or(2) as u8).collect()).unwrap_or_default(),
         }
     }
     pub fn id(&self) -> String {
-        format!("[{}] v={} icon={} ing={} chain={} {}", self.def.id(), self.ver, self.icon as u8, self.ing_variant, self.chain, self.asset)
+        format!("[{}] v={} icon={} ing={} chain={} {}{}", self.def.id(), self.ver, self.icon as u8, self.ing_variant, self.chain, self.asset,
+            if self.nest.is_empty() { String::new() } else { format!(" nest={:?}", self.nest) })
     }
 }
 
@@ -74,6 +81,18 @@ pub fn tampered_jpeg(claim_version: u8) -> Vec<u8> {
     v
 }
 
+/// A signed chain: the kit JPEG signed with claim version levels[0], then re-signed (Edit intent: the previous asset becomes
+/// the parentOf ingredient) with each further version.
+pub fn nested_asset(levels: &[u8]) -> c2pa::Result<Vec<u8>> {
+    let signer = sdk::fixture_signer("ed25519");
+    let mut cur = assets::jpeg();
+    for (i, v) in levels.iter().enumerate() {
+        let mut b = sdk::builder(sdk::ctx(), &json!({"title": format!("level-{i}"), "claim_version": v, "claim_generator_info": [{"name": "kit", "version": "1"}]}).to_string());
+        cur = sdk::sign(&mut b, signer.as_ref(), "image/jpeg", &cur)?.0;
+    }
+    Ok(cur)
+}
+
 pub fn build(c: &Case) -> c2pa::Result<Builder> {
     let mut d = c.def.definition(c.ver, None);
     if c.icon {
@@ -95,6 +114,10 @@ pub fn build(c: &Case) -> c2pa::Result<Builder> {
             b.add_resource(&id, Cursor::new(ing_thumb_bytes(i)))?;
         }
         b.add_ingredient_from_stream(j.to_string(), ing.mime, &mut Cursor::new(ing.data.clone()))?;
+    }
+    if !c.nest.is_empty() {
+        let nested = nested_asset(&c.nest)?;
+        b.add_ingredient_from_stream(r#"{"title":"ing-nested.jpg","relationship":"componentOf"}"#, "image/jpeg", &mut Cursor::new(nested))?;
     }
     if c.ing_variant >= 2 {
         b.add_ingredient_from_stream(r#"{"title":"ing-3 tampered.jpg","relationship":"componentOf"}"#, "image/jpeg", &mut Cursor::new(tampered_jpeg(c.ver)))?;
@@ -289,7 +312,7 @@ fn judge(run: &Run, c: &Case) {
     let run = &Tap(run);
     let r = run_case(c);
     run.eval();
-    let cfg = format!("v={} ing={} icon={}", c.ver, c.ing_variant, c.icon as u8);
+    let cfg = format!("v={} ing={} icon={}{}", c.ver, c.ing_variant, c.icon as u8, if c.nest.is_empty() { String::new() } else { format!(" nest={:?}", c.nest).replace(' ', "") .replace("nest", " nest") });
     match r {
         Err(p) => {
             run.outcome("panic");
@@ -359,7 +382,7 @@ pub fn run(run: &Run, replay: Option<&Value>) {
     }
     // determinism: same case twice
     {
-        let c = Case { def: Def::rich(), ver: 2, icon: true, ing_variant: 2, chain: 2, asset: "jpeg".into() };
+        let c = Case { def: Def::rich(), ver: 2, icon: true, ing_variant: 2, chain: 2, asset: "jpeg".into(), nest: vec![] };
         let show = |o: Result<Out, String>| match o { Ok(Out::Compared(d)) => format!("{d:?}"), Ok(Out::Vacuous(e)) => format!("vacuous {e}"), Ok(Out::ArchiveError(s, e)) => format!("{s} {e}"), Err(p) => p };
         let (x, y) = (show(run_case(&c)), show(run_case(&c)));
         run.evals(2);
@@ -383,17 +406,30 @@ pub fn run(run: &Run, replay: Option<&Value>) {
     for d in &defs_used { for ver in [1u8, 2] { for icon in [false, true] { for ing_variant in 0u8..3 {
         if d.ingredients == 0 && ing_variant == 1 { continue; }
         for chain in 1..=3usize {
-            cases.push(Case { def: d.clone(), ver, icon, ing_variant, chain, asset: "jpeg".into() });
+            cases.push(Case { def: d.clone(), ver, icon, ing_variant, chain, asset: "jpeg".into(), nest: vec![] });
         }
     }}}}
     run.space(&format!("definitions({}) x claim version(2) x icon(2) x ingredient variant(3, explicit thumbnails only with ingredients) x chain length(3) on jpeg", defs_used.len()), cases.len() as u64, true);
     let mut more = vec![];
     for a in assets::base() { if a.name == "jpeg" { continue; } for chain in 1..=3usize { for ver in [1u8, 2] {
-        more.push(Case { def: Def::rich(), ver, icon: true, ing_variant: 2, chain, asset: a.name.into() });
+        more.push(Case { def: Def::rich(), ver, icon: true, ing_variant: 2, chain, asset: a.name.into(), nest: vec![] });
     }}}
     run.space("rich definition with icon, thumbnails, tampered ingredient x every other base asset(12) x version(2) x chain length(3)", more.len() as u64, true);
+    // nested signed chains as ingredient: every claim-version combination at depth 2 and 3 (a v1 level over a v2 level cannot be
+    // built: "ingredient version too new", counted as vacuous)
+    let mut nested = vec![];
+    let mut combos: Vec<Vec<u8>> = vec![];
+    for a in [1u8, 2] { for b in [1u8, 2] { combos.push(vec![a, b]); for c3 in [1u8, 2] { combos.push(vec![a, b, c3]); } } }
+    // a claim-v1 manifest cannot carry a v2 ingredient, so versions must not decrease from the innermost level to the top
+    combos.retain(|c| c.windows(2).all(|w| w[0] <= w[1]));
+    for nest in &combos { for ver in [1u8, 2] { for chain in 1..=3usize { for d in [Def::empty(), Def::rich()] {
+        if ver < *nest.last().unwrap_or(&1) { continue; }
+        nested.push(Case { def: d, ver, icon: false, ing_variant: 0, chain, asset: "jpeg".into(), nest: nest.clone() });
+    }}}}
+    run.space("nested signed ingredient chains: claim version at each level of depth 2 and 3 and at the top, every non-decreasing combination (a v1 claim cannot carry a v2 ingredient) x chain length(3) x definition {empty, rich}", nested.len() as u64, true);
     par::for_each(&cases, |c| judge(run, c));
     par::for_each(&more, |c| judge(run, c));
+    par::for_each(&nested, |c| judge(run, c));
     STATS.get_or_init(Default::default).finish(run, "C22");
     run.sample(json!({"case": cases[0].to_json()}));
     run.sample(json!({"case": cases[cases.len() - 1].to_json(), "definition": cases[cases.len() - 1].def.definition(2, None)}));
